@@ -7,6 +7,8 @@ import CpProofs.C11
 namespace CpProofs.C11
 open CpModel.PathContain
 
+private def S' (s : String) : Str := s.toList
+
 /-! ### `urllib.parse.unquote` as modelled (`CpModel.PathContain.unquote`) -/
 
 /-- **C11, static part, for the concrete decoder** (the general theorem holds for every function in
@@ -273,5 +275,62 @@ theorem session_id_noslash_one_below (X id : Str) (hX : isAbs X = true) (hns : '
   have := one_component_below (normpath X) (sessionPrefix ++ id) hsp hname h1 h2 h3
   rw [normpath_idem] at this
   exact this
+
+/-! ### a78b01e: only the canonical spelling of an id names a session -/
+
+/-- `_exists` looks (one `stat`) only at the canonical spelling
+    `join(abspath(storage_path), SESSION_PREFIX + id)`. -/
+theorem exists_stat_only_canonical (cwd sp id : Str) (acc : List Access)
+    (h : sessOp .exists_ cwd sp id = some acc) :
+    ∀ a ∈ acc, a = ⟨.stat, sessionCanonical cwd sp id⟩ := by
+  unfold sessOp at h
+  split at h
+  · cases h
+  · rename_i f _
+    simp only [Option.some.injEq] at h
+    subst h
+    intro a ha
+    split at ha
+    · simp at ha
+    · rename_i hc
+      simp only [List.mem_singleton] at ha
+      have : f = sessionCanonical cwd sp id := by
+        simp only [Bool.or_eq_true, bne_iff_ne, ne_eq, not_or, Decidable.not_not] at hc
+        exact hc.1
+      rw [ha, this]
+
+/-- An alias (a spelling whose normal form differs from it) is refused or simply not looked at. -/
+theorem exists_alias_untouched (cwd sp id : Str)
+    (hne : sessionFile cwd sp id ≠ sessionCanonical cwd sp id) :
+    sessOp .exists_ cwd sp id = none ∨ sessOp .exists_ cwd sp id = some [] := by
+  unfold sessOp getFilePath
+  by_cases hchk : sessionCheck cwd sp id = true
+  · right
+    have : (sessionFile cwd sp id != sessionCanonical cwd sp id) = true := by simpa using hne
+    simp [hchk, this]
+  · left; simp [hchk]
+
+/-- ... and never adopted: whatever `os.path.exists` would answer, the request goes on with a
+    fresh id (the C14 regression of ead95a2, repaired by a78b01e). -/
+theorem session_alias_not_adopted (cwd storage id g1 g2 : Str) (a : Action)
+    (hne : sessionFile cwd (sessionRoot cwd storage) id ≠
+      sessionCanonical cwd (sessionRoot cwd storage) id) :
+    sessionRequest cwd storage (some id) true g1 g2 a =
+      sessionRequest cwd storage (some id) false g1 g2 a := by
+  have : (sessionFile cwd (sessionRoot cwd storage) id ==
+      sessionCanonical cwd (sessionRoot cwd storage) id) = false := by simpa using hne
+  simp [sessionRequest, this]
+
+/-- `<live id>/`, `x/../session-<live id>`, `/../session-<live id>`, `./<id>`-like spellings are
+    aliases; the plain id is canonical. -/
+example :
+    (["abc/", "x/../session-abc", "/../session-abc", "abc/.", "abc//"].map fun i =>
+      sessOp .exists_ (S' "/") (sessionRoot (S' "/") (S' "/t/sess")) (S' i)) =
+      [some [], some [], some [], some [], some []] ∧
+    sessOp .exists_ (S' "/") (sessionRoot (S' "/") (S' "/t/sess")) (S' "abc") =
+      some [⟨.stat, S' "/t/sess/session-abc"⟩] ∧
+    sessionRequest (S' "/") (S' "/t/sess") (some (S' "x/../session-abc")) true (S' "0a") (S' "0b") .read =
+      some [⟨.stat, S' "/t/sess/session-0a"⟩, ⟨.lock, S' "/t/sess/session-0a.lock"⟩,
+        ⟨.openR, S' "/t/sess/session-0a"⟩, ⟨.openW, S' "/t/sess/session-0a"⟩] := by decide
 
 end CpProofs.C11
